@@ -13,7 +13,7 @@ RULE = ('Base documents: fixtures, generated valid documents, documents with 1-4
         'acknowledgement are identical for the original and every re-encoding. non-trivial = distinct (document, encoding) pairs where the document has >=1 error.')
 ASSUMPTIONS = ['message strings and HTML are not compared (they legitimately contain delimiters)', 'source line numbers are compared as segment ordinals, which re-encoding preserves',
                'acknowledgement envelope lines (ISA/GS/ST/SE/GE/IEA, which carry timestamps and generated control numbers) are excluded']
-REQUIRED_COUNTERS = ['bases:with-TA1', 'bases:later-isa-not-106-characters', 'bases:with-data-less-segment', 'bases:with-empty-or-blank-segment', 'bases:with-trailing-separator-or-leading-blank', 'bases:longer-than-one-read-buffer', 'bases', 'bases:with-errors', 'bases:valid', 'encodings', 'encodings:control-char-delimiter', 'encodings:eol:', 'encodings:eol:\\r\\n', 'encodings:eol:\\n', 'encodings:eol:mixed', 'bases:5010-with-other-repetition-separator', 'bases:repeatable-composite-with-several-components', 'encodings:caret-between-components']
+REQUIRED_COUNTERS = ['bases:data-holding-the-usual-delimiters', 'bases:with-TA1', 'bases:later-isa-not-106-characters', 'bases:with-data-less-segment', 'bases:with-empty-or-blank-segment', 'bases:with-trailing-separator-or-leading-blank', 'bases:longer-than-one-read-buffer', 'bases', 'bases:with-errors', 'bases:valid', 'encodings', 'encodings:control-char-delimiter', 'encodings:eol:', 'encodings:eol:\\r\\n', 'encodings:eol:\\n', 'encodings:eol:mixed', 'bases:5010-with-other-repetition-separator', 'bases:repeatable-composite-with-several-components', 'encodings:caret-between-components']
 MIN_CASES = {'quick': 900, 'thorough': 30000}
 WATCHDOG_S = {'quick': 1200, 'thorough': 7200}
 
@@ -235,6 +235,34 @@ def run(ctx):
             ctx.count('bases:repeatable-composite-with-several-components')
             text = doc.text()
             n += judge(ctx, text, 'E', {'map': e['file'], 'faults': ['directed:repeatable-composite'], 'charset': 'E', 'k': ['c12rep', e['file'], t], 'text': text if len(text) < 150000 else None}, sigs, max(k_enc, 4))
+    # directed: documents written in other delimiters whose DATA holds the characters that usually delimit (~ * :) - in values that are reported
+    # (too long), so that the acknowledgement has to decide what to do with them; that decision must not depend on the input's delimiters either
+    nd = (40 if ctx.quick else 600) // ctx.nshards + 1
+    for t in range(nd):
+        rng = ctx.sub_rng('c12punct', ctx.shard, t)
+        e = entries[(t * 11 + ctx.shard * 3) % len(entries)]
+        cs = rng.choice(['B', 'E'])
+        st0, et0, sb0 = rng.choice([('!', '|', '/'), ('\n', '+', '?'), ("'", '|', '=')])
+        try:
+            doc = gen_doc.gen_document(e, rng.randrange(1 << 30), n_st=rng.choice([1, 2]), n_gs=1, n_isa=1, charset=cs, rich=False, fill=0.4, opt_prob=0.5, maxrep=1,
+                                       forbid='~*:^' + st0 + et0 + sb0)
+        except gen_doc.GenFailed:
+            continue
+        if len(doc.recs) > 250:
+            continue
+        sites = [x for x in faults.element_sites(doc, None) if faults._present(x[4]) and x[1].usage != 'N' and faults._plain_site(x[0], x[1], x[2], x[3], x[4], doc)
+                 and gen_doc.dtype_of(x[1])[0] in ('AN', 'ID')]
+        rng.shuffle(sites)
+        if not sites:
+            continue
+        doc = faults.clone(doc)
+        for (i2, node2, ep2, sp2, cur2) in sites[:rng.randint(1, 3)]:
+            mx = gen_doc.dtype_of(node2)[2]
+            v = rng.choice(['A:B', 'M:', '*', 'X*Y', ':', '1*2:3'] + (['A~B', '~'] if cs == 'E' else []))
+            faults.set_value(doc.recs[i2], ep2, sp2, v + 'Q' * max(0, mx + 1 - len(v)))
+        text = doc.text(st0, et0, sb0, '\n' if st0 != '\n' else '')
+        ctx.count('bases:data-holding-the-usual-delimiters')
+        n += judge(ctx, text, cs, {'map': e['file'], 'faults': ['directed:data-holding-the-usual-delimiters'], 'charset': cs, 'k': ['c12punct', ctx.shard, t], 'text': text if len(text) < 150000 else None}, sigs, k_enc)
     ctx.case(n=n, sigs=sorted(sigs))
 
 
